@@ -209,6 +209,16 @@ def execute(job):
     info['on_break'] = trange if breaks else ''
     r = _block(obj, cell, vals2, job['units'][:(1 if cell['isrxn'] else 2)], comp, events, mism, 'C')
     info['repeat'] = r[5]
+    # ---- block D: the composition is edited in place, then the per-mass forms are asked again
+    #      (expected: the molar mass of the CURRENT composition)
+    if ident is not None and cell['mass']:
+        how = lib.ELEMENT_EDITS[var.get('brk', 0) % len(lib.ELEMENT_EDITS)]
+        lib.edit_elements(obj, ident[2], how)
+        if how == 'callers_dict' and obj.elements is not ident[2]:
+            info['edit'] = ''                  # the class copied the caller's dict: nothing to demand
+        else:
+            r = _block(obj, cell, vals, job.get('mass_units', []), lib.current_comp(obj), events, mism, 'D')
+            info['edit'], info['edited'] = how, r[5]
     info['values'] = {k: (v if isinstance(v, (int, float, str, bool, type(None))) else repr(v))
                       for k, v in vals.items() if k in cell['kwT'] or k in cell['kwD']}
     return events, mism, info
@@ -290,7 +300,8 @@ def make_jobs(ctx, data):
                        'pvar': lib.P_VARIANTS[(rot // 5) % len(lib.P_VARIANTS)],
                        'xvar': lib.X_VARIANTS[(rot // 3) % len(lib.X_VARIANTS)],
                        'comp': lib.COMP_VARIANTS[(rot // 2) % len(lib.COMP_VARIANTS)], 'brk': rot}
-                jobs.append({'cell': c, 'units': us, 'base': base, 'seed': seed, 'var': var})
+                mu = [next(u for u in order if u['per'] == m) for m in ('g', 'kg')] if c['mass'] else []
+                jobs.append({'cell': c, 'units': us, 'base': base, 'seed': seed, 'var': var, 'mass_units': mu})
             ci += 1
     return jobs
 
@@ -404,6 +415,11 @@ def run(ctx):
         if not cell['tgiven']:
             bump('T_defaulted', cell['cls'], n)
         bump('second_use_of_object', cell['cls'], info['repeat'])
+        if info.get('edit'):
+            bump('elements_edited_in_place_then_per_mass', cell['cls'] + '/' + info['edit'], info['edited'])
+        if cell['cls'] == 'StatMech' and cell['mass']:
+            bump('translational_mass_differs_from_composition', 'StatMech',
+                 sum(1 for u in job['units'] if u['per'] in ('g', 'kg')) if n else 0)
         if info.get('on_break'):
             fam = cell['cls'] + ('/' + cell['species'] if cell['isrxn'] else '')
             kind = 'array_T_containing_a_break_temperature' if cell['shape'] == 'array' else 'scalar_T_on_a_break_temperature'
@@ -442,6 +458,9 @@ def run(ctx):
                 'phase': [c + '/' + ph for c in ('Nasa', 'Nasa9', 'Shomate') for ph in ('gas', 'condensed')],
                 'T_defaulted': ['StatMech', 'Nasa', 'Reaction', 'SurfaceReaction', 'HarmonicVib', 'Reference'],
                 'second_use_of_object': sorted({j['cell']['cls'] for j in jobs}),
+                'elements_edited_in_place_then_per_mass': [c + '/' + h for c in ('StatMech', 'Nasa', 'Nasa9', 'Shomate',
+                                                                                 'Reference') for h in lib.ELEMENT_EDITS],
+                'translational_mass_differs_from_composition': ['StatMech'],
                 'array_T_containing_a_break_temperature': ['Nasa', 'Nasa9', 'Shomate', 'Reaction/Nasa',
                                                            'ChemkinReaction/Nasa', 'SurfaceReaction/Nasa'],
                 'scalar_T_on_a_break_temperature': ['Nasa', 'Nasa9', 'Shomate', 'Reaction/Nasa',
